@@ -397,6 +397,15 @@ def norm_fn(path):
     return re.sub(r"(::\{closure(#\d+)?\})+", "", path)
 
 
+def norm_sig(sig):
+    """`a * b` on integers is an Assert(Overflow) terminator when both operands are values and a call of the operator trait when one is a
+    reference (`*stride *= v` with v: &usize): the same site either way, keyed by the assert form"""
+    m = re.match(r"^call:(add|sub|mul)(_assign)?<([^>]*)>$", sig)
+    if m:
+        return "Overflow(%s v,v)" % m.group(1).capitalize()
+    return sig
+
+
 def load_tables():
     base = os.path.join(os.path.dirname(os.path.dirname(os.path.dirname(os.path.abspath(__file__)))), "tables")
     with open(os.path.join(base, "panic_sites.json")) as fh:
@@ -405,7 +414,8 @@ def load_tables():
         ct = json.load(fh)
     rows = {}
     for r in ps["rows"]:
-        k = (norm_fn(r["fn"]), r["sig"])
+        k = (norm_fn(r["fn"]), norm_sig(r["sig"]))
+        r = dict(r, sig=norm_sig(r["sig"]))
         if k in rows:
             # rows of sibling closures with the same signature are merged (counts add up)
             if (rows[k]["verdict"] == "finding") != (r["verdict"] == "finding"):
@@ -429,6 +439,7 @@ def collect_sites(prog, fns):
             if r:
                 auto.append((s, r))
             else:
+                s.sig = norm_sig(s.sig)
                 res.setdefault((norm_fn(f.path), s.sig), []).append(s)
     return res, auto
 
